@@ -582,3 +582,377 @@ Proof.
     destruct (Z.eqb_spec r row); [contradiction|]. reflexivity.
   - intros r c Hr Hc Hne. rewrite Dc by assumption. destruct (Z.eqb_spec r row); [contradiction|]. reflexivity.
 Qed.
+
+(* ====================================================================== *)
+(* backlight, brightness, display, glyph; one step; histories              *)
+(* ====================================================================== *)
+Lemma last_aw_text p evs l : Forall text_ev evs -> last_aw p (evs ++ l) = last_aw p l.
+Proof.
+  induction 1 as [|e evs He _ IH]; [reflexivity|]. cbn [app last_aw]. destruct e; cbn in He; try contradiction; exact IH.
+Qed.
+
+Lemma last_bl_text evs l : Forall text_ev evs -> last_bl (evs ++ l) = last_bl l.
+Proof.
+  induction 1 as [|e evs He _ IH]; [reflexivity|]. cbn [app last_bl]. destruct e; cbn in He; try contradiction; exact IH.
+Qed.
+
+Lemma last_cg_text s evs l : Forall text_ev evs -> last_cg s (evs ++ l) = last_cg s l.
+Proof.
+  induction 1 as [|e evs He _ IH]; [reflexivity|]. cbn [app last_cg]. destruct e; cbn in He; try contradiction; exact IH.
+Qed.
+
+(* a text call keeps the backlight and glyph agreement *)
+Lemma agrees_text h d h' d' :
+  agrees h d -> same_flags h h' -> textual d d' -> shows h' d' -> agrees h' d'.
+Proof.
+  intros (_ & Bl & Gl) (Fg & Fd & Fb & Fr & Fy) (G & B & S & evs & L & T) Sh.
+  split; [exact Sh|]. split.
+  - unfold bl_agree in *. rewrite G, L, Fb, Fr. destruct (g_i2c (d_g d)).
+    + rewrite last_bl_text by exact T. exact Bl.
+    + destruct (g_blpin (d_g d)); [|exact I]. rewrite last_aw_text by exact T. rewrite B, S. exact Bl.
+  - unfold glyph_agree in *. intros slot Hs. rewrite Fy, L, last_cg_text by exact T. apply Gl. exact Hs.
+Qed.
+
+Lemma shows_same_cells h d h' d' :
+  shows h d -> h_g h' = h_g h -> h_buf h' = h_buf h -> d_g d' = d_g d -> d_ram d' = d_ram d -> shows h' d'.
+Proof.
+  intros (G & Wf & E) Gh Bh Gd Rd. unfold shows, h_cols, h_rows, cells, dcell, d_cols, d_rows in *.
+  rewrite Gh, Bh, Gd, Rd. auto.
+Qed.
+
+(* the backlight pin of a parallel display under every history of the firmware model,
+   whatever the arguments (no guard) *)
+Definition pin_inv (d : dlcd) : Prop :=
+  match g_blpin (d_g d) with
+  | Some p => g_i2c (d_g d) = false ->
+              last_aw p (d_log d) = Some (if d_blstate d then d_bright d else 0) /\ 0 <= d_bright d <= 255
+  | None => True
+  end.
+
+Lemma pin_inv_textual d d' : textual d d' -> pin_inv d -> pin_inv d'.
+Proof.
+  intros (G & B & S & evs & L & T) I. unfold pin_inv in *. rewrite G, L, B, S.
+  destruct (g_blpin (d_g d)); [|exact I]. rewrite last_aw_text by exact T. exact I.
+Qed.
+
+Lemma pin_inv_bl_switch d on : pin_inv d -> pin_inv (bl_switch d on).
+Proof.
+  unfold pin_inv, bl_switch. destruct (g_i2c (d_g d)) eqn:Ei.
+  - cbn [d_g log d_log]. destruct (g_blpin (d_g d)); [|trivial]. intros _ Hc. congruence.
+  - destruct (g_blpin (d_g d)) as [p|] eqn:Ep; cbn [d_g log set_bl d_log d_blstate d_bright]; rewrite ?Ep; [|trivial].
+    intros I _. specialize (I eq_refl). cbn [last_aw]. rewrite Z.eqb_refl. split; [destruct on; reflexivity|apply I].
+Qed.
+
+Lemma pin_inv_log_other d e : (match e with EvAW _ _ => False | _ => True end) -> pin_inv d -> pin_inv (log d e).
+Proof.
+  intros He I. unfold pin_inv in *. cbn [d_g log d_log d_blstate d_bright].
+  destruct (g_blpin (d_g d)); [|exact I]. destruct e; try contradiction; exact I.
+Qed.
+
+Lemma pin_inv_brightness d level : pin_inv d -> pin_inv (dev_brightness d level).
+Proof.
+  unfold pin_inv, dev_brightness. destruct (g_blpin (d_g d)) as [p|] eqn:Ep; [|rewrite Ep; trivial].
+  set (b0 := if level <? 0 then 0 else level). set (b := if b0 >? 255 then 255 else b0).
+  assert (Hb : 0 <= b <= 255) by (subst b b0; destruct (Z.ltb_spec level 0); rewrite Z.gtb_ltb; zb).
+  intros I. destruct (d_blstate d) eqn:Es; cbn [d_g log set_bl d_log d_blstate d_bright]; rewrite Ep; intros Hi.
+  - cbn [last_aw]. rewrite Z.eqb_refl. split; [reflexivity|exact Hb].
+  - specialize (I Hi). split; [apply I|exact Hb].
+Qed.
+
+Lemma pin_inv_step d op : pin_inv d -> pin_inv (dstep' d op).
+Proof.
+  intros I. unfold dstep', dstep. destruct op.
+  - destruct (align_ok align); [|exact I]. eapply pin_inv_textual; [apply textual_write_aligned|exact I].
+  - destruct (align_ok align); [|exact I]. eapply pin_inv_textual; [apply textual_write_aligned|exact I].
+  - destruct (align_ok top_align && align_ok bottom_align); [|exact I].
+    set (d1 := match top with Some t => _ | None => d end).
+    assert (I1 : pin_inv d1) by (subst d1; destruct top; [eapply pin_inv_textual; [apply textual_write_aligned|exact I]|exact I]).
+    destruct bottom; [eapply pin_inv_textual; [apply textual_write_aligned|exact I1]|exact I1].
+  - eapply pin_inv_textual; [apply textual_lcd_clear|exact I].
+  - destruct (style_ok style); [|exact I]. eapply pin_inv_textual; [apply textual_progress|exact I].
+  - unfold dev_display. apply pin_inv_bl_switch. apply pin_inv_log_other; [exact Logic.I|exact I].
+  - apply pin_inv_bl_switch. exact I.
+  - apply pin_inv_brightness. exact I.
+  - destruct (zlen bitmap =? 8); [|exact I]. unfold pin_inv in *. cbn [d_g create_char d_log d_blstate d_bright last_aw]. exact I.
+Qed.
+
+Lemma pin_inv_init g : pin_inv (dinit g).
+Proof.
+  unfold pin_inv, dinit. cbn [d_g lcd_clear]. destruct (g_i2c g) eqn:Ei; cbn [d_g log].
+  - destruct (g_blpin g); [|trivial]. congruence.
+  - destruct (g_blpin g) as [p|] eqn:Ep; cbn [d_g log]; rewrite ?Ep; [|trivial].
+    intros _. cbn [d_log lcd_clear log last_aw d_blstate d_bright]. rewrite Z.eqb_refl. split; [reflexivity|lia].
+Qed.
+
+Lemma pin_inv_run ops : forall d, pin_inv d -> pin_inv (drun d ops).
+Proof. induction ops as [|op r IH]; intros d I; cbn [drun]; [exact I|]. apply IH, pin_inv_step, I. Qed.
+
+(* ---------- glyphs ---------- *)
+Lemma gget_gset slot v l s : gget s (gset slot v l) = if slot =? s then Some v else gget s l.
+Proof.
+  unfold gset. cbn [gget]. destruct (Z.eqb_spec slot s); [reflexivity|].
+  induction l as [|[k w] l IH]; cbn [filter gget fst]; [reflexivity|].
+  destruct (Z.eqb_spec k slot); cbn [negb gget].
+  - subst k. destruct (Z.eqb_spec slot s); [contradiction|]. exact IH.
+  - destruct (k =? s); [reflexivity|exact IH].
+Qed.
+
+Lemma land_slot slot : 0 <= slot <= 7 -> Z.land (u8 slot) 7 = slot.
+Proof.
+  intros H. unfold u8. rewrite Z.mod_small by lia.
+  assert (Hs : slot = 0 \/ slot = 1 \/ slot = 2 \/ slot = 3 \/ slot = 4 \/ slot = 5 \/ slot = 6 \/ slot = 7) by lia.
+  destruct Hs as [Hs|[Hs|[Hs|[Hs|[Hs|[Hs|[Hs|Hs]]]]]]]; subst slot; reflexivity.
+Qed.
+
+Lemma glyph_rows_8 bitmap : zlen bitmap = 8 ->
+  glyph_rows bitmap = dev_glyph_rows bitmap /\ zlen (glyph_rows bitmap) = 8 /\
+  Forall (fun v => 0 <= v <= 31) (glyph_rows bitmap).
+Proof.
+  intros H. unfold glyph_rows, dev_glyph_rows.
+  rewrite ztake_all by (rewrite zlen_map; lia). split; [reflexivity|]. split; [rewrite zlen_map; exact H|].
+  apply Forall_forall. intros x Hx. apply in_map_iff in Hx as [v [<- _]].
+  change 31 with (Z.ones 5). rewrite Z.land_ones by lia. pose proof (Z.mod_pos_bound v (2 ^ 5) ltac:(lia)).
+  change (Z.ones 5) with 31. change (2 ^ 5) with 32 in *. lia.
+Qed.
+
+Lemma row_in_spec g row : row_in g row = true -> 0 <= row < g_rows g.
+Proof. unfold row_in. intros H. apply andb_true_iff in H as [H0 H1]. apply Z.leb_le in H0. apply Z.ltb_lt in H1. lia. Qed.
+
+Lemma col_in_spec g col : col_in g col = true -> 0 <= col < g_cols g.
+Proof. unfold col_in. intros H. apply andb_true_iff in H as [H0 H1]. apply Z.leb_le in H0. apply Z.ltb_lt in H1. lia. Qed.
+
+(* ---------- one guarded call ---------- *)
+Lemma step_refines h d op :
+  fits (d_g d) -> agrees h d -> op_guard (d_g d) op = true ->
+  exists h' d', hstep h op = (h', HOk) /\ dstep d op = Some d' /\ agrees h' d' /\ d_g d' = d_g d.
+Proof.
+  intros Hf Ag Hg. pose proof Ag as (Sh & Bl & Gl). pose proof Hf as (Hc & Hr & _).
+  fold (d_cols d) in Hc. fold (d_rows d) in Hr.
+  destruct op; cbn [op_guard] in Hg; cbn [hstep dstep].
+  - (* write *)
+    apply andb_true_iff in Hg as [Hg Hal]. apply andb_true_iff in Hg as [Hg Hasc]. apply andb_true_iff in Hg as [Hrow Hcol].
+    apply row_in_spec in Hrow. apply col_in_spec in Hcol.
+    destruct (write_refines h d col row text clear align Hf Sh Hrow Hcol (asciib_ascii _ Hasc) Hal) as (h' & E & F & S' & T & _).
+    rewrite Hal. eexists; eexists. split; [exact E|]. split; [reflexivity|]. split; [eapply agrees_text; eassumption|apply T].
+  - (* line *)
+    apply andb_true_iff in Hg as [Hg Hal]. apply andb_true_iff in Hg as [Hrow Hasc].
+    apply row_in_spec in Hrow. rewrite hline_hwrite.
+    destruct (write_refines h d 0 row text clear align Hf Sh Hrow ltac:(lia) (asciib_ascii _ Hasc) Hal) as (h' & E & F & S' & T & _).
+    rewrite Hal. eexists; eexists. split; [exact E|]. split; [reflexivity|]. split; [eapply agrees_text; eassumption|apply T].
+  - (* message *)
+    apply andb_true_iff in Hg as [Hg Hbr]. apply andb_true_iff in Hg as [Hg Hba]. apply andb_true_iff in Hg as [Hg Hta].
+    apply andb_true_iff in Hg as [Hat Hab].
+    assert (Hb : bottom = None \/ 2 <= d_rows d).
+    { apply orb_true_iff in Hbr as [H|H]; [left; destruct bottom; [discriminate|reflexivity]|right; apply Z.leb_le in H; exact H]. }
+    assert (At : opt_ascii top) by (destruct top; [apply asciib_ascii; exact Hat|exact I]).
+    assert (Ab : opt_ascii bottom) by (destruct bottom; [apply asciib_ascii; exact Hab|exact I]).
+    destruct (message_refines h d top bottom top_align bottom_align clear Hf Sh At Ab Hta Hba Hb) as (h' & E & F & S' & T & _).
+    rewrite Hta, Hba. cbn [andb]. eexists; eexists. split; [exact E|]. split; [reflexivity|].
+    split; [eapply agrees_text; eassumption|apply T].
+  - (* clear *)
+    destruct Sh as (G & Wf & Ec).
+    destruct (clear_refines h d G ltac:(lia) ltac:(lia)) as (h' & E & F & S' & T & _).
+    eexists; eexists. split; [exact E|]. split; [reflexivity|]. split; [|reflexivity].
+    eapply agrees_text; eassumption.
+  - (* progress *)
+    apply andb_true_iff in Hg as [Hg Hfe]. apply andb_true_iff in Hg as [Hg Hw]. apply andb_true_iff in Hg as [Hg Hm].
+    apply andb_true_iff in Hg as [Hg Hasc]. apply andb_true_iff in Hg as [Hrow Hst].
+    apply row_in_spec in Hrow. apply Z.ltb_lt in Hm. apply Z.eqb_eq in Hfe.
+    destruct (progress_refines h d row value maxv width style label Hf Sh Hrow Hst (asciib_ascii _ Hasc) Hm Hw Hfe)
+      as (h' & E & F & S' & T & _).
+    rewrite Hst. eexists; eexists. split; [exact E|]. split; [reflexivity|]. split; [eapply agrees_text; eassumption|apply T].
+  - (* display *)
+    eexists; eexists. split; [reflexivity|]. split; [reflexivity|].
+    assert (Gd : d_g (dev_display d on) = d_g d).
+    { unfold dev_display, bl_switch. cbn [d_g log]. destruct (g_i2c (d_g d)); [reflexivity|]. destruct (g_blpin (d_g d)); reflexivity. }
+    split; [|exact Gd]. split; [|split].
+    + eapply shows_same_cells; [exact Sh|reflexivity|reflexivity|exact Gd|].
+      unfold dev_display, bl_switch. cbn [d_g log]. destruct (g_i2c (d_g d)); [reflexivity|]. destruct (g_blpin (d_g d)); reflexivity.
+    + unfold bl_agree in *. rewrite Gd. unfold dev_display, bl_switch. cbn [d_g log].
+      destruct (g_i2c (d_g d)); [reflexivity|].
+      destruct (g_blpin (d_g d)) as [p|]; [|exact I]. destruct Bl as (_ & _ & Eb & Rb).
+      cbn [d_log log set_bl d_blstate d_bright last_aw h_backlight h_bright hdisplay fst]. rewrite Z.eqb_refl, Eb.
+      repeat split; try (apply Rb). 
+    + unfold glyph_agree in *. intros s Hs. cbn [h_glyphs]. rewrite (Gl s Hs). unfold dev_display, bl_switch. cbn [d_g log].
+      destruct (g_i2c (d_g d)); [reflexivity|]. destruct (g_blpin (d_g d)); reflexivity.
+  - (* backlight *)
+    eexists; eexists. split; [reflexivity|]. split; [reflexivity|].
+    assert (Gd : d_g (dev_backlight d on) = d_g d).
+    { unfold dev_backlight, bl_switch. destruct (g_i2c (d_g d)); [reflexivity|]. destruct (g_blpin (d_g d)); reflexivity. }
+    split; [|exact Gd]. split; [|split].
+    + eapply shows_same_cells; [exact Sh|reflexivity|reflexivity|exact Gd|].
+      unfold dev_backlight, bl_switch. destruct (g_i2c (d_g d)); [reflexivity|]. destruct (g_blpin (d_g d)); reflexivity.
+    + unfold bl_agree in *. rewrite Gd. unfold dev_backlight, bl_switch.
+      destruct (g_i2c (d_g d)); [reflexivity|].
+      destruct (g_blpin (d_g d)) as [p|]; [|exact I]. destruct Bl as (_ & _ & Eb & Rb).
+      cbn [d_log log set_bl d_blstate d_bright last_aw h_backlight h_bright hbacklight fst]. rewrite Z.eqb_refl, Eb.
+      repeat split; try (apply Rb).
+    + unfold glyph_agree in *. intros s Hs. cbn [h_glyphs]. rewrite (Gl s Hs). unfold dev_backlight, bl_switch.
+      destruct (g_i2c (d_g d)); [reflexivity|]. destruct (g_blpin (d_g d)); reflexivity.
+  - (* brightness *)
+    apply andb_true_iff in Hg as [Hg H0]. apply andb_true_iff in Hg as [Hg H]. apply andb_true_iff in Hg as [Hg Hp].
+    apply Z.leb_le in H, H0.
+    apply negb_true_iff in Hg. destruct (g_blpin (d_g d)) as [p|] eqn:Ep; [|discriminate].
+    destruct Sh as (G & Wf & Ec).
+    unfold hbrightness. rewrite G, Hg, Ep.
+    destruct (Z.leb_spec 0 level); [|lia]. destruct (Z.leb_spec level 255); [|lia]. cbn [andb negb].
+    eexists; eexists. split; [reflexivity|]. split; [reflexivity|].
+    unfold bl_agree in Bl. rewrite Hg, Ep in Bl. destruct Bl as (La & Es & Eb & Rb).
+    assert (Gd : d_g (dev_brightness d level) = d_g d).
+    { unfold dev_brightness. rewrite Ep. destruct (d_blstate d); reflexivity. }
+    split; [|exact Gd]. split; [|split].
+    + eapply shows_same_cells; [split; [exact G|split; [exact Wf|exact Ec]]|cbn [h_g]; congruence|reflexivity|exact Gd|].
+      unfold dev_brightness. rewrite Ep. destruct (d_blstate d); reflexivity.
+    + unfold bl_agree. rewrite Gd, Hg, Ep. unfold dev_brightness. rewrite Ep.
+      destruct (Z.ltb_spec level 0); [lia|]. rewrite Z.gtb_ltb. destruct (Z.ltb_spec 255 level); [lia|].
+      cbn [h_backlight h_bright]. rewrite <- Es.
+      destruct (d_blstate d) eqn:Ed; cbn [d_log log set_bl d_blstate d_bright last_aw].
+      * rewrite Z.eqb_refl. repeat split; lia.
+      * rewrite La, <- Es. repeat split; lia.
+    + unfold glyph_agree in *. intros s Hs. cbn [h_glyphs]. rewrite (Gl s Hs). unfold dev_brightness. rewrite Ep.
+      destruct (d_blstate d); reflexivity.
+  - (* glyph *)
+    apply andb_true_iff in Hg as [Hg H]. apply andb_true_iff in Hg as [Hg H0].
+    apply Z.leb_le in Hg, H0. apply Z.eqb_eq in H.
+    destruct (glyph_rows_8 bitmap H) as (Eg & Lg & _).
+    unfold hglyph. destruct (Z.leb_spec 0 slot); [|lia]. destruct (Z.leb_spec slot 7); [|lia]. cbn [andb negb].
+    rewrite Lg. cbn [Z.eqb Pos.eqb negb]. rewrite H. cbn [Z.eqb Pos.eqb].
+    eexists; eexists. split; [reflexivity|]. split; [reflexivity|]. split; [|reflexivity]. split; [|split].
+    + eapply shows_same_cells; [exact Sh|reflexivity|reflexivity|reflexivity|reflexivity].
+    + unfold bl_agree in *. cbn [d_g create_char d_log last_bl last_aw d_blstate d_bright h_backlight h_bright]. exact Bl.
+    + unfold glyph_agree in *. intros s Hs. cbn [h_glyphs d_log create_char last_cg].
+      rewrite gget_gset, land_slot by lia. rewrite Eg. destruct (slot =? s); [reflexivity|apply Gl; exact Hs].
+Qed.
+
+(* ---------- the initial state ---------- *)
+Lemma agrees_init g h0 : hinit g = Some h0 -> g_rows g <= 4 -> agrees h0 (dinit g).
+Proof.
+  unfold hinit. destruct ((g_cols g <=? 0) || (g_rows g <=? 0)) eqn:E; [discriminate|].
+  apply orb_false_iff in E as [E1 E2]. apply Z.leb_gt in E1, E2.
+  intros H R4. injection H as <-. split; [|split].
+  - apply shows_intro.
+    + cbn [h_g]. unfold dinit. cbn [d_g lcd_clear]. destruct (g_i2c g); [reflexivity|]. destruct (g_blpin g); reflexivity.
+    + unfold d_rows, dinit. cbn [d_g lcd_clear]. destruct (g_i2c g); cbn [d_g log]; [exact R4|]. destruct (g_blpin g); cbn [d_g log]; exact R4.
+    + unfold h_cols, h_rows. cbn [h_g h_buf]. apply buf_wf_blank; lia.
+    + intros r c Hr Hc. unfold dcell, dinit. cbn [d_ram lcd_clear]. unfold hcell. cbn [h_buf].
+      assert (Gd : d_g (dinit g) = g).
+      { unfold dinit. cbn [d_g lcd_clear]. destruct (g_i2c g); [reflexivity|]. destruct (g_blpin g); reflexivity. }
+      unfold d_rows, d_cols in Hr, Hc. rewrite Gd in Hr, Hc. rewrite znth_blank_buf by assumption. reflexivity.
+  - unfold bl_agree, dinit. cbn [d_g lcd_clear]. destruct (g_i2c g) eqn:Ei; cbn [d_g log]; rewrite ?Ei; [reflexivity|].
+    destruct (g_blpin g) as [p|] eqn:Ep; cbn [d_g log]; rewrite ?Ei, ?Ep; [|exact I].
+    cbn [d_log lcd_clear log last_aw d_blstate d_bright h_backlight h_bright]. rewrite Z.eqb_refl. repeat split; lia.
+  - intros s Hs. cbn [h_glyphs gget]. unfold dinit. cbn [d_log lcd_clear].
+    destruct (g_i2c g); cbn [d_log log last_cg]; [reflexivity|]. destruct (g_blpin g); reflexivity.
+Qed.
+
+(* ---------- every guarded history ---------- *)
+Lemma history_refines ops : forall h d,
+  fits (d_g d) -> agrees h d -> forallb (op_guard (d_g d)) ops = true ->
+  hsteps_ok h ops /\ agrees (hrun h ops) (drun d ops).
+Proof.
+  induction ops as [|op r IH]; intros h d Hf Ag Hg; cbn [hsteps_ok hrun drun].
+  - split; [exact I|exact Ag].
+  - cbn [forallb] in Hg. apply andb_true_iff in Hg as [Hg Hr].
+    destruct (step_refines h d op Hf Ag Hg) as (h' & d' & Eh & Ed & Ag' & Gd).
+    unfold dstep'. rewrite Eh, Ed. cbn [fst snd].
+    destruct (IH h' d') as [Ok Ag'']; [rewrite Gd; exact Hf|exact Ag'|rewrite Gd; exact Hr|].
+    split; [split; [reflexivity|exact Ok]|exact Ag''].
+Qed.
+
+(* ====================================================================== *)
+(* host: the buffer keeps its shape under every call, whatever the arguments *)
+(* ====================================================================== *)
+Lemma wf_cols_nonneg cols rows b row : buf_wf cols rows b -> 0 <= row < rows -> 0 <= cols.
+Proof. intros Wf Hr. rewrite <- (buf_wf_row cols rows b row Wf Hr). apply zlen_nonneg. Qed.
+
+Lemma row_ok_spec h row : row_ok h row = true -> 0 <= row < h_rows h.
+Proof. unfold row_ok. intros H. apply andb_true_iff in H as [H0 H1]. apply Z.leb_le in H0. apply Z.ltb_lt in H1. lia. Qed.
+
+Definition hwf (h : hlcd) : Prop := buf_wf (h_cols h) (h_rows h) (h_buf h).
+
+Lemma hwf_set_row h row line : hwf h -> zlen line = h_cols h -> hwf (set_buf h (zupd row line (h_buf h))).
+Proof. intros Wf Hl. unfold hwf in *. cbn [h_buf set_buf]. apply buf_wf_zupd; assumption. Qed.
+
+Lemma hplace_wf h row text align start : hwf h -> hwf (fst (hplace h row text align start)).
+Proof.
+  intros Wf. unfold hplace. destruct (row_ok h row) eqn:Er; [|exact Wf]. cbn [negb].
+  destruct (align_ok align); [|exact Wf]. cbn [negb].
+  destruct (Z.max 0 (h_cols h - Z.max 0 start) <=? 0); [exact Wf|]. cbn [fst].
+  apply row_ok_spec in Er. apply hwf_set_row; [exact Wf|].
+  unfold zlen. rewrite place_length. apply (buf_wf_row _ _ _ row Wf Er).
+Qed.
+
+Lemma hwrite_wf h col row text clear align : hwf h -> hwf (fst (hwrite h col row text clear align)).
+Proof.
+  intros Wf. unfold hwrite. destruct (row_ok h row) eqn:Er; [|exact Wf]. cbn [negb].
+  apply hplace_wf. destruct clear; [|exact Wf]. apply row_ok_spec in Er.
+  apply hwf_set_row; [exact Wf|]. apply zlen_blank_row. eapply wf_cols_nonneg; eassumption.
+Qed.
+
+Lemma hstep_wf h op : 0 <= h_cols h -> hwf h -> hwf (fst (hstep h op)).
+Proof.
+  intros Hc0 Wf. destruct op; cbn [hstep].
+  - apply hwrite_wf, Wf.
+  - rewrite hline_hwrite. apply hwrite_wf, Wf.
+  - unfold hmessage.
+    set (p1 := match top with Some t => hline h 0 t top_align clear | None => (h, HOk) end).
+    assert (W1 : hwf (fst p1)) by (subst p1; destruct top; [rewrite hline_hwrite; apply hwrite_wf, Wf|exact Wf]).
+    destruct p1 as [h1 r1]. cbn [fst] in W1. destruct r1; [|exact W1].
+    destruct bottom; [|exact W1]. destruct (h_rows h1 >? 1); [|exact W1]. rewrite hline_hwrite. apply hwrite_wf, W1.
+  - unfold hclear, hwf. cbn [fst h_buf set_buf]. unfold h_cols, h_rows. cbn [h_g set_buf].
+    destruct Wf as [Wl Wf]. apply buf_wf_blank; [exact Hc0|]. fold (h_rows h). rewrite <- Wl. apply zlen_nonneg.
+  - unfold hprogress. destruct (style_ok style); [|exact Wf]. cbn [negb].
+    destruct (row_ok h row) eqn:Er; [|exact Wf]. cbn [negb fst].
+    apply hwf_set_row; [exact Wf|].
+    unfold hprogress_row. apply zlen_ljust.
+    destruct label; rewrite zlen_ztake; lia.
+  - exact Wf.
+  - exact Wf.
+  - unfold hbrightness. destruct (g_i2c (h_g h)); [exact Wf|]. destruct (g_blpin (h_g h)); [|exact Wf].
+    destruct (negb ((0 <=? level) && (level <=? 255))); exact Wf.
+  - unfold hglyph. destruct (negb ((0 <=? slot) && (slot <=? 7))); [exact Wf|].
+    destruct (negb (zlen (glyph_rows bitmap) =? 8)); exact Wf.
+Qed.
+
+Lemma hplace_g h row text align start : h_g (fst (hplace h row text align start)) = h_g h.
+Proof.
+  unfold hplace. destruct (negb (row_ok h row)); [reflexivity|]. destruct (negb (align_ok align)); [reflexivity|].
+  destruct (Z.max 0 (h_cols h - Z.max 0 start) <=? 0); reflexivity.
+Qed.
+
+Lemma hwrite_g h col row text clear align : h_g (fst (hwrite h col row text clear align)) = h_g h.
+Proof.
+  unfold hwrite. destruct (negb (row_ok h row)); [reflexivity|]. rewrite hplace_g. destruct clear; reflexivity.
+Qed.
+
+Lemma hstep_g h op : h_g (fst (hstep h op)) = h_g h.
+Proof.
+  destruct op; cbn [hstep]; try reflexivity.
+  - apply hwrite_g.
+  - rewrite hline_hwrite. apply hwrite_g.
+  - unfold hmessage.
+    set (p1 := match top with Some t => hline h 0 t top_align clear | None => (h, HOk) end).
+    assert (G1 : h_g (fst p1) = h_g h) by (subst p1; destruct top; [rewrite hline_hwrite; apply hwrite_g|reflexivity]).
+    destruct p1 as [h1 r1]. cbn [fst] in G1. destruct r1; [|exact G1].
+    destruct bottom; [|exact G1]. destruct (h_rows h1 >? 1); [|exact G1]. rewrite hline_hwrite, hwrite_g. exact G1.
+  - unfold hprogress. destruct (negb (style_ok style)); [reflexivity|]. destruct (negb (row_ok h row)); reflexivity.
+  - unfold hbrightness. destruct (g_i2c (h_g h)); [reflexivity|]. destruct (g_blpin (h_g h)); [|reflexivity].
+    destruct (negb ((0 <=? level) && (level <=? 255))); reflexivity.
+  - unfold hglyph. destruct (negb ((0 <=? slot) && (slot <=? 7))); [reflexivity|].
+    destruct (negb (zlen (glyph_rows bitmap) =? 8)); reflexivity.
+Qed.
+
+(* every history, every argument: the buffer is always rows x cols *)
+Lemma host_shape ops : forall g h0, hinit g = Some h0 ->
+  h_g (hrun h0 ops) = g /\ buf_wf (g_cols g) (g_rows g) (h_buf (hrun h0 ops)).
+Proof.
+  intros g h0 Hi.
+  assert (H0 : h_g h0 = g /\ 0 <= g_cols g /\ hwf h0).
+  { unfold hinit in Hi. destruct ((g_cols g <=? 0) || (g_rows g <=? 0)) eqn:E; [discriminate|].
+    apply orb_false_iff in E as [E1 E2]. apply Z.leb_gt in E1, E2. injection Hi as <-.
+    split; [reflexivity|]. split; [lia|]. unfold hwf, h_cols, h_rows. cbn [h_g h_buf]. apply buf_wf_blank; lia. }
+  clear Hi. revert h0 H0. induction ops as [|op r IH]; intros h0 (G & Hc & Wf); cbn [hrun].
+  - split; [exact G|]. unfold hwf, h_cols, h_rows in Wf. rewrite G in Wf. exact Wf.
+  - apply IH. split; [rewrite hstep_g; exact G|]. split; [exact Hc|].
+    apply hstep_wf; [unfold h_cols; rewrite G; exact Hc|exact Wf].
+Qed.
